@@ -10,9 +10,14 @@
          N <k> (<node> <flag>)^k  A <k> (<scid> <cap | -> <n1> <n2>)^k  U <k> (<scid> <flags> <cltv> <min> <base> <prop> <max>)^k
                           a rapid-gossip-sync snapshot (RapidGossipSync::update_network_graph_no_std)
      dump                 dumpp   (persisted part only: no tombstones)
+   asynchronous UTXO lookups (Model/GossipAsync.lean; every op above passes the pending-lookup layer first):
+     ca … <utxo: a<fid>> <now>   the lookup answers UtxoResult::Async with the fresh future <fid>
+     rs <fid> <u | v<sats>>      UtxoFuture::resolve
+     pc <now>                    check_resolved_futures; answer = the queued broadcasts of accepted signed replays
+     tm                          too_many_checks_pending
    The model run is `Gossip.Impl` (every decision = generated code), see Model/Gossip.lean. -/
 import LdkModel.Driver.Util
-import LdkModel.Model.Gossip
+import LdkModel.Model.GossipAsync
 namespace Ldk.Driver
 open Ldk Ldk.Gossip
 open Ldk.Gossip.Impl (RgsNode RgsAnn RgsUpd)
@@ -98,21 +103,43 @@ def c17Snapshot : List String → Option Impl.Snapshot
     | _ => none
   | _ => none
 
+def c17Event : Msg → String
+  | .chanAnn a => s!"A{a.scid}"
+  | .nodeAnn n => s!"N{n.node}/{n.ts}"
+  | .chanUpd u => s!"U{u.scid}/{c17B u.dir}/{u.ts}"
+
+/-- a `ca` line whose utxo token is `a<fid>` -/
+def c17ParseAsync : List String → Option (ChanAnn × Nat)
+  | ["ca", scid, n1, n2, sb, ch, vf, s1, s2, s3, s4, ux, now] =>
+    if ux.startsWith "a" then
+      some ({ scid := nat! scid, n1 := nat! n1, n2 := nat! n2, sameBtc := c17b sb, chainOk := c17b ch, verify := c17b vf, sigN1 := c17b s1, sigN2 := c17b s2, sigB1 := c17b s3, sigB2 := c17b s4, utxo := .unknownTx, now := nat! now },
+            nat! (ux.drop 1).toString)
+    else none
+  | _ => none
+
 def c17 : Drv where
-  σ := Graph
-  init := Graph.empty
-  step := fun g ws =>
+  σ := Async.State
+  init := Async.State.empty
+  step := fun st ws =>
     match ws with
-    | ["reset"] => (Graph.empty, "-")
-    | ["dump"] => (g, c17Dump g true)
-    | ["dumpp"] => (g, c17Dump g false)
+    | ["reset"] => (Async.State.empty, "-")
+    | ["dump"] => (st, c17Dump st.g true)
+    | ["dumpp"] => (st, c17Dump st.g false)
+    | ["tm"] => (st, c17B (Async.tooMany st))
+    | ["rs", fid, ux] => ((Async.step st (.resolve (nat! fid) (c17Utxo ux))).1, "done")
+    | ["pc", now] =>
+      let r := Async.process st (nat! now)
+      ((Async.step st (.process (nat! now))).1, " ".intercalate ("done" :: r.2.map c17Event))
     | "rgs" :: rest =>
       match c17Snapshot rest with
-      | some s => let r := Impl.applySnapshot g s; (r.1, c17ShowOutcome r.2)
-      | none => (g, "bad-op")
+      | some s => let r := Impl.applySnapshot st.g s; ({ st with g := r.1 }, c17ShowOutcome r.2)
+      | none => (st, "bad-op")
     | _ =>
-      match c17Parse ws with
-      | some op => let r := Impl.step g op; (r.1, c17ShowOutcome r.2)
-      | none => (g, "bad-op")
+      match c17ParseAsync ws with
+      | some (a, fid) => let r := Async.step st (.annAsync a fid); (r.1, c17ShowOutcome r.2)
+      | none =>
+        match c17Parse ws with
+        | some op => let r := Async.step st (.base op); (r.1, c17ShowOutcome r.2)
+        | none => (st, "bad-op")
 
 end Ldk.Driver
